@@ -2,6 +2,7 @@
 #![allow(clippy::all)]
 pub mod alpha;
 pub mod bigint;
+pub mod corpus;
 pub mod dtx;
 pub mod exact;
 pub mod explore;
